@@ -374,6 +374,12 @@ def fam_builder(seed, big):
                 [["env", "A", H + "ff"], ["clone"], ["env", "B", H + "fe"]]):
         for t in ("capture", "join"):
             add(ops, t)
+    # the process environment changes BEFORE the command's first environment edit (also: after an earlier command on the
+    # same thread has edited its own): the command inherits what is there when it starts editing
+    for ops in ([["setenv_proc", "ZED1", "1"], ["env", "B", "1"]], [["arg", "x"], ["setenv_proc", "ZED2", "2"], ["env_remove", "NO_SUCH_VAR"]],
+                [["setenv_proc", "ZED3", "3"], ["env_extend", [["B", "2"]]], ["clone"], ["env", "C", "3"]]):
+        for t in ("capture", "join"):
+            add(ops, t)
     # an empty variable name (an entry "=value" in the environment block): an edit like any other
     for ops in ([["env", "", "x"]], [["env", "", "x"], ["env", "A", "1"], ["env_remove", ""]], [["env_extend", [["", "y"], ["B", "2"]]]]):
         for t in ("capture", "join"):
